@@ -71,7 +71,9 @@ MANIFEST = dict(
          'every public adder (add_brush / add_brushes / VMF.brushes.append, add_ent / add_ents / create_ent, vis_tree.append / create_visgroup, '
          'constructors that register themselves, add_out, fixup[], Entity.solids.append) and removed (remove_brush, Solid.remove, remove_ent); the '
          'edited parsed map must export the same text as the built map that got the same edits, and must round-trip; world brushes are observed '
-         'through VMF.brushes (the public view), not through spawn.solids.',
+         'through VMF.brushes (the public view), not through spawn.solids. Every round trip also exercises the other public form of the two calls: '
+         'VMF.export(file object) must write what VMF.export() returns, and VMF.parse(<file name>) (cp1251 text file) must give the map '
+         'VMF.parse(<Keyvalues tree>) gives (when the text is cp1251-encodable and holds no bare CR; the generator alphabet holds Cyrillic, (c) and the euro sign for it).',
     note='Partial with respect to the whole-map statement: text -> KeyValues tree is proved for all export methods; tree -> object is '
          'proved per class at the level "which attribute receives which key" (flat: child lists are paired only as exported/parsed '
          'attributes), per array, per output value, per fixup line, per number group; the recursion over child objects is a theorem '
@@ -1187,7 +1189,8 @@ def run(ck: Ck) -> None:
                'probability 0.6 (and outputs / fixups / solids of each entity with 0.5) is built, exported and parsed; then 1-2 elements per container '
                '(at least one for every emptied container) are added to the PARSED map through a randomly chosen public adder, entities of the base get '
                'outputs / fixups / solids, and with probability 0.3 a brush / an entity is removed; non-trivial = always (every history adds something); '
-               'distinct by full specification; 21 directed histories (blank map then everything, one container empty at a time, bare entities) run first.')
+               'every round trip additionally writes the text into a file object and, when it is cp1251-encodable without bare CR (every other such text: about 22 % of the maps, '
+               '5 % with non-ASCII text), parses it from a file name; distinct by full specification; 21 directed histories (blank map then everything, one container empty at a time, bare entities) run first.')
     ck.trusted.append('hand tables in translate/c06_vmf.py (field types, call graph of export methods, parse roots, vertex arity), '
                       'validated on real objects / really exported text on every run')
     ck.trusted.append('hand-copied ESCAPES table and scanner in rocq/Fmt/VmfText.v (tied by differential correspondence on every run)')
